@@ -5,7 +5,7 @@
     (e2e matrix of not-selected conditions x entry points x roles, inbound data while not selected,
     pipelining at every cut point, gate scenarios compared for equality with the model). *)
 From Coq Require Import ZArith Bool List Lia.
-From GoSecs Require Import Hsms.SendCore Hsms.SendCoreMon Hsms.SendCoreGate Hsms.SendCoreInvSteps Hsms.SendCoreGateMon.
+From GoSecs Require Import Hsms.SendCore Hsms.SendCoreMon Hsms.SendCoreGate Hsms.SendCoreInvSteps Hsms.SendCoreGateMon Hsms.SendCoreDeclared.
 Import ListNotations.
 Open Scope Z_scope.
 
@@ -83,6 +83,18 @@ Theorem C07_gate_all_runs : forall fx p acts c0 s os,
 Proof. exact gate_all_runs. Qed.
 Print Assumptions C07_gate_all_runs.
 
+(** "Fails with the not-selected error" over whole runs: for ALL action sequences, a data-sending call
+    on any entry point (sync, async, reply, forward, forward-async) that starts after a quiescent
+    point at which the connection was not Selected (never opened, closed, connecting, connected
+    not-selected, deselected, between generations) and returns before any lifecycle event or peer
+    Select/Deselect frame, returns NotSelected — NotOpen exactly when the connection was never
+    opened (declared-condition clause of ok_C07; the e2e matrix declares the condition the same way). *)
+Theorem C07_refused_while_not_selected : forall fx p acts c0 s os,
+  all_benign fx p (init c0) acts = true ->
+  run fx p (init c0) acts = Some (s, os) -> mon_run chk_declared mon0 os = true.
+Proof. exact declared_all_runs. Qed.
+Print Assumptions C07_refused_while_not_selected.
+
 (** ** Inbound data while not Selected: exactly one Reject.req, reason 4, echoing session id and
     system bytes, queued; no handler call (the observation list is empty), no waiter is offered
     anything (calls unchanged), the link stays up (socket, generation ctx, state unchanged). *)
@@ -96,6 +108,13 @@ Theorem C07_inbound : forall p s n f, f_pt f = 0 -> f_st f = 0 -> selected s = f
   sendq (enq_int s (reject_not_selected f)) = sendq s ++ [(-1, reject_not_selected f)].
 Proof. exact inbound_not_selected. Qed.
 Print Assumptions C07_inbound.
+
+(** The log-level inbound/pipeline clause of ok_C07 ([chk_inbound]: which Reject(4) answers which
+    frame, matched greedily by session id and system bytes) judges the logs of the real
+    implementation and the model runs of the examples; its acceptance of ALL model runs is not proved
+    (the greedy matching is exact only when the peer's unsettled data frames carry pairwise distinct
+    session id / system bytes, which the e2e peers ensure). The exact statements are C07_inbound
+    (per dispatch step) and C07_pipeline (over whole runs). *)
 
 (** ** Pipelining. The establishing select leaves st = Selected in the same dispatch step ... *)
 Theorem C07_select_req_commits : forall p s n f, is_select_req f = true -> st s <> NC ->
